@@ -596,3 +596,171 @@ def c08_battery(binary):
         shutil.rmtree(d, ignore_errors=True)
     _memo[("c08", binary)] = devs
     return devs
+
+
+# ------------------------------------------------------------------ C04: a stale report never removes changed data
+
+def c04_battery(binary):
+    """group, then one ordinary file operation on one member (same-length rewrite, append, truncate, delete, replace by directory /
+    symlink, recreate), then remove / link with the default --modified-before: every content that a file had when the dedupe command
+    started and that is gone from that path afterwards must still be stored in some regular file.  Run in UTC and in zones east / west."""
+    import time
+    if ("c04", binary) in _memo:
+        return _memo[("c04", binary)]
+    devs = []
+
+    def edits():
+        def rewrite(p):
+            with open(p, "r+b") as f:
+                f.seek(10)
+                f.write(b"Z")
+
+        def append(p):
+            with open(p, "ab") as f:
+                f.write(b"tail")
+
+        def truncate(p):
+            with open(p, "r+b") as f:
+                f.truncate(50)
+
+        def delete(p):
+            os.remove(p)
+
+        def to_dir(p):
+            os.remove(p)
+            os.makedirs(p)
+
+        def to_symlink(p):
+            os.remove(p)
+            os.symlink("/etc/hostname", p)
+
+        def recreate(p):
+            os.remove(p)
+            open(p, "wb").write(b"R" * 300)
+        return [("same-length rewrite", rewrite), ("append", append), ("truncate", truncate), ("delete", delete), ("replace by a directory", to_dir),
+                ("replace by a symlink", to_symlink), ("delete and recreate with other content of the same length", recreate)]
+
+    def inventory(root):
+        inv = {}
+        for dp, dn, fn in os.walk(root):
+            for n in fn:
+                p = os.path.join(dp, n)
+                if os.path.islink(p) or not os.path.isfile(p):
+                    inv[p] = None
+                else:
+                    inv[p] = open(p, "rb").read()
+        return inv
+
+    for tz in ("UTC", "Asia/Tokyo", "America/New_York"):
+        for op in (["remove"], ["link"], ["link", "--soft"]):
+            for ename, edit in edits():
+                for member in ("a.bin", "b.bin", "c.bin"):
+                    d, root = fresh("c04b.")
+                    env = dict(mkenv(d), TZ=tz)
+                    try:
+                        for n in ("a.bin", "b.bin", "c.bin"):
+                            p = os.path.join(root, n)
+                            open(p, "wb").write(b"C" * 300)
+                            old = time.time() - 1000
+                            os.utime(p, (old, old))
+                        rep = os.path.join(d, "rep.txt")
+                        with open(rep, "wb") as f:
+                            subprocess.run([binary, "group", root], stdout=f, stderr=subprocess.PIPE, env=env, timeout=60)
+                        edit(os.path.join(root, member))
+                        before = inventory(root)
+                        with open(rep, "rb") as f:
+                            subprocess.run([binary] + op, stdin=f, stdout=subprocess.PIPE, stderr=subprocess.PIPE, env=env, timeout=60)
+                        after = inventory(root)
+                        kept = {v for v in after.values() if v is not None}
+                        for p, content in before.items():
+                            if content is None:
+                                continue
+                            now = after.get(p, "gone")
+                            if now != content and content not in kept:
+                                devs.append({"tz": tz, "cmd": " ".join(op), "edit": "%s of %s after `group`" % (ename, member),
+                                             "lost": "the content %r.. of %s is stored nowhere after the dedupe command" % (content[:12], os.path.basename(p))})
+                    finally:
+                        shutil.rmtree(d, ignore_errors=True)
+                    if len(devs) > 4:
+                        _memo[("c04", binary)] = devs
+                        return devs
+    _memo[("c04", binary)] = devs
+    return devs
+
+
+# ------------------------------------------------------------------ C07: group and --dry-run leave the scanned tree untouched
+
+def _snapshot(root):
+    snap = {}
+    for dp, dn, fn in os.walk(root):
+        for n in dn + fn:
+            p = os.path.join(dp, n)
+            st = os.lstat(p)
+            data = None
+            if os.path.islink(p):
+                data = os.readlink(p)
+            elif os.path.isfile(p):
+                data = open(p, "rb").read()
+            snap[os.path.relpath(p, root)] = (st.st_mode, st.st_ino, st.st_nlink, st.st_mtime_ns, st.st_size, data)
+    return snap
+
+
+def c07_battery(binary):
+    """snapshot (paths, bytes, inodes, link counts, mtimes) of a tree with copies, a hard-link pair and a symlink, before and after
+    `group` in every transform I/O mode (with the temp dir on the same file system) and after every dedupe command with --dry-run
+    (with and without -o FILE); the temp dir must be empty afterwards"""
+    if ("c07", binary) in _memo:
+        return _memo[("c07", binary)]
+    devs = []
+    d, root = fresh("c07b.")
+    env = mkenv(d)
+    tmpd = env["TMPDIR"]
+    try:
+        for sub in ("x", "y"):
+            os.makedirs(os.path.join(root, sub))
+        for i, rel in enumerate(("x/one.bin", "x/two.bin", "y/one.bin", "y/three.bin")):
+            open(os.path.join(root, rel), "wb").write(b"DATA" * 400)
+        open(os.path.join(root, "x/uniq.bin"), "wb").write(b"U" * 999)
+        os.link(os.path.join(root, "x/one.bin"), os.path.join(root, "x/one_link.bin"))
+        os.symlink("one.bin", os.path.join(root, "y/sym"))
+        for dp, dn, fn in os.walk(root):
+            for n in fn:
+                p = os.path.join(dp, n)
+                if not os.path.islink(p):
+                    os.utime(p, (1_500_000_000, 1_500_000_000))
+        snap0 = _snapshot(root)
+
+        def check(tag, args, stdin=None):
+            r = subprocess.run([binary] + args, stdin=stdin, stdout=subprocess.PIPE, stderr=subprocess.PIPE, env=env, timeout=120, cwd=d)
+            snap1 = _snapshot(root)
+            if snap1 != snap0:
+                changed = sorted(k for k in set(snap0) | set(snap1) if snap0.get(k) != snap1.get(k))
+                devs.append({"cmd": tag, "changed_paths": changed[:5]})
+                return r
+            left = os.listdir(tmpd)
+            if left:
+                devs.append({"cmd": tag, "temp_files_left": left[:3]})
+            return r
+        for tr in ("cat", "cat $IN", "cp $IN $OUT", "dd if=$IN of=$OUT", "truncate -s 4 $IN", "sh -c true $IN"):
+            for extra in ([], ["--in-place"], ["--no-copy"] if "$IN" in tr and "truncate" not in tr else []):
+                if extra == ["--in-place"] and "$OUT" in tr:
+                    continue
+                check("group --transform '%s' %s" % (tr, " ".join(extra)), ["group", "--transform", tr] + extra + [root])
+                if devs:
+                    break
+            if devs:
+                break
+        for extra in ([], ["--cache"], ["-o", os.path.join(d, "out.txt")], ["--threads", "1"]):
+            check("group %s" % " ".join(extra), ["group"] + extra + [root])
+        rep = os.path.join(d, "rep.txt")
+        with open(rep, "wb") as f:
+            subprocess.run([binary, "group", root], stdout=f, stderr=subprocess.PIPE, env=env, timeout=60)
+        for op in (["remove"], ["link"], ["link", "--soft"], ["dedupe"], ["move", os.path.join(d, "moved")], ["move", os.path.join(root, "new_dir", "2026")],
+                   ["move", os.path.join(root, "x", "archive")]):
+            for extra in ([], ["-o", os.path.join(d, "script.sh")]):
+                with open(rep, "rb") as f:
+                    check(" ".join(op + ["--dry-run"] + extra), op + ["--dry-run"] + extra, stdin=f)
+    finally:
+        shutil.rmtree(d, ignore_errors=True)
+    _memo[("c07", binary)] = devs
+    return devs
